@@ -10,7 +10,6 @@
 # information at https://github.com/ddsmt/ddSMT/blob/master/LICENSE.
 
 import io
-import textwrap
 import typing
 
 from .nodes import Node
@@ -144,6 +143,52 @@ def __write_smtlib(file: typing.TextIO, expr: Node):
         visit.extend(x for x in reversed(ex.data))
 
 
+def __write_smtlib_wrapped(file: typing.TextIO, expr: Node, width=78):
+    """Write the given smtlib expression like ``__write_smtlib``, but start a
+    new (indented) line instead of writing a separating space whenever the
+    current line would get longer than ``width``.
+
+    Lines are only broken between tokens, thus string literals, quoted
+    symbols, comments and long symbols are written verbatim.
+    """
+    visit = [expr]
+    needs_space = False
+    col = 0
+    while visit:
+        ex = visit.pop()
+        if ex is None:
+            file.write(')')
+            col += 1
+            needs_space = True
+            continue
+
+        if needs_space:
+            if col + 1 + (len(ex.data) if ex.is_leaf() else 1) > width:
+                file.write('\n  ')
+                col = 2
+            else:
+                file.write(' ')
+                col += 1
+
+        if ex.is_leaf():
+            if ex.data == '':
+                continue
+            if ex.data[0] == ';':
+                file.write(f'\n{ex.data}\n')
+                col = 0
+            else:
+                file.write(ex.data)
+                col += len(ex.data)
+            needs_space = True
+            continue
+
+        file.write('(')
+        col += 1
+        needs_space = False
+        visit.append(None)
+        visit.extend(x for x in reversed(ex.data))
+
+
 def __write_smtlib_pretty(file: typing.TextIO, expr: Node):
     """Write the given smtlib expression in one line into the file object."""
     visit = [(expr, False)]
@@ -199,16 +244,14 @@ def write_smtlib(file: typing.TextIO, exprs: typing.List[Node]):
         # pretty print
         for expr in exprs:
             __write_smtlib_pretty(file, expr)
+    elif options.args().wrap_lines:
+        # wrap every line (only between tokens)
+        for expr in exprs:
+            __write_smtlib_wrapped(file, expr)
+            file.write('\n')
     else:
         # regular writeing
         lines = [__write_smtlib_str(expr) for expr in exprs]
-        if options.args().wrap_lines:
-            # wrap every line
-            lines = map(
-                lambda line: textwrap.wrap(
-                    line, width=78, subsequent_indent='  '), lines)
-            # and flatten the list
-            lines = [sub for line in lines for sub in line]
         for line in lines:
             file.write(line)
             file.write('\n')
